@@ -23,6 +23,8 @@ from .. import core, corpus, tlc, treeproj, treestore, treefrags, realparse
 from ..tok import enc, dec, NONE
 
 COLLISION = "dom-colon-attr-collision"
+DOCTYPE = "dom-doctype-name-colon"
+DEFECTS = [COLLISION, DOCTYPE]
 ALL_THMS = ["ThmNoException", "ThmRows", "ThmRefinement", "ThmViews", "ThmWellFormed", "ThmShadow", "ThmDomConsistent"]
 REP_THMS = ["ThmNoException", "ThmWellFormed", "ThmShadow", "ThmDomConsistent"]      # what must hold of the code-faithful model too
 
@@ -97,7 +99,7 @@ def run_mc(ctx, tag, mode, theme, maxops, maxnodes, ns_on, defects, thms):
 CONTAINERS = ["div", "p", "table", "tbody", "tr", "td", "select", "caption", "colgroup", "title", "textarea", "script", "svg-not",
               "html", "head", "body", "frameset", "template-not", "style", "plaintext", "th", "thead", "tfoot", "xmp", "noscript"]
 CONTAINERS = [c for c in CONTAINERS if not c.endswith("-not")]
-WITNESSES = [("<p href=a xlink:href=b>", None), ("<b><div><table><i>x</table></b>", None), ("<table><b>", "p"),
+WITNESSES = [("<p href=a xlink:href=b>", None), ("<!DOCTYPE a:b><p x:y=1 y=2>", None), ("<!DOCTYPE svg:svg PUBLIC \"p\" \"s\">x", None), ("<b><div><table><i>x</table></b>", None), ("<table><b>", "p"),
              ("<b><div><p></b></b>", None), ("<a>1<table><a>2<td>3</table>4", None), ("<table><tr><a><div></a>", None),
              ("<tr><a><div></a>", "tbody"), ("<body a=1><body a=2 b=3>", None), ("<html x=1><html x=2 y=3>", None),
              ("<b><i><u><div>x</b>y</i>z", None), ("<pre>\n\nx</pre><textarea>\n</textarea>", None), ("a<table>b<tr>c<td>d</table>e", None),
@@ -156,7 +158,9 @@ def clark_ambiguous(d):
 def _record(job):
     d, cx, kind, ns = job
     try:
-        tr = treestore.record_parse(d, cx, kind, ns)
+        tr = treestore.with_timeout(lambda: treestore.record_parse(d, cx, kind, ns))
+    except treestore.Timeout:
+        return {"harness_error": "parse + projection did not finish within 20 s", "src": d, "cx": cx, "builder": kind}
     except Exception as e:
         return {"harness_error": repr(e), "src": d, "cx": cx, "builder": kind}
     tr["src"] = d
@@ -193,8 +197,9 @@ def primitive_traces(ctx, docs, listed):
         case = {"kind": "prim", "src": r["src"], "cx": r["cx"], "builder": "etree" if r["b"] == "E" else "dom", "ns": r["ns"]}
         v = rec["v"]
         if v.startswith("finding:"):
-            ctx.known_finding(v[8:], "attribute lost by the dom builder", {"input": r["src"], "container": r["cx"], "treebuilder": "dom"}) or \
-                ctx.violation("trace needs unlisted deviation %s" % v, case)
+            for key in rec["f"]:
+                ctx.known_finding(key, "dom builder result differs from the abstract tree", {"input": r["src"], "container": r["cx"], "treebuilder": "dom"}) or \
+                    ctx.violation("trace needs unlisted deviation %s" % key, case)
         elif v == "accept-with-patterns":
             for x in rec["p"]:
                 pats[x] = pats.get(x, 0) + 1
@@ -274,14 +279,32 @@ def forms(d, cx, scripting=False):
     return out
 
 
+def packed(fs):
+    """lossless encoding of the six forms: equal trees stored once"""
+    trees, keys, out = [], {}, []
+    for f in fs:
+        k = json.dumps(f["t"], sort_keys=True)
+        if k not in keys:
+            keys[k] = len(trees) + 1
+            trees.append(f["t"])
+        out.append({"b": f["b"], "ns": f["ns"], "ti": keys[k], "hns": f["hns"]})
+    return trees, out
+
+
 def _forms_row(job):
     d, cx = job
-    return {"frag": cx is not None, "forms": forms(d, cx), "src": d, "cx": cx}
+    try:
+        fs = treestore.with_timeout(lambda: forms(d, cx), 60)
+    except treestore.Timeout:
+        fs = [{"b": b, "ns": ns, "t": [treeproj.node("exc", n=enc("Timeout:" + b))], "hns": []}
+              for b in ("etree-full", "etree-root", "dom") for ns in (True, False)]
+    trees, out = packed(fs)
+    return {"frag": cx is not None, "trees": trees, "forms": out, "src": d, "cx": cx}
 
 
 def end_to_end(ctx, docs, listed, tag):
     rows = core.parallel(_forms_row, docs, chunk=300)
-    slim = [{"frag": r["frag"], "forms": r["forms"]} for r in rows]
+    slim = [{"frag": r["frag"], "trees": r["trees"], "forms": r["forms"]} for r in rows]
     idx = {id(t): i for i, t in enumerate(slim)}
     for r in rows:
         ctx.nontriv(("e2e", r["src"], str(r["cx"])))
@@ -290,8 +313,9 @@ def end_to_end(ctx, docs, listed, tag):
         r = rows[idx[id(tr)]]
         v = rec["v"]
         if v.startswith("finding:"):
-            ctx.known_finding(v[8:], "attribute lost by the dom builder", {"input": r["src"], "container": r["cx"], "treebuilder": "dom"}) or \
-                ctx.violation("builders differ (%s)" % v, {"kind": "e2e", "src": r["src"], "cx": r["cx"]})
+            for key in (DEFECTS if v == "finding:both" else [v[8:]]):
+                ctx.known_finding(key, "dom builder result differs from the etree builder's", {"input": r["src"], "container": r["cx"], "treebuilder": "dom"}) or \
+                    ctx.violation("builders differ (%s)" % v, {"kind": "e2e", "src": r["src"], "cx": r["cx"]})
         elif v == "accept-raised":
             raised += 1
         else:
@@ -299,7 +323,7 @@ def end_to_end(ctx, docs, listed, tag):
     ctx.notes["inputs_on_which_every_form_raised_the_same_exception"] = ctx.notes.get("inputs_on_which_every_form_raised_the_same_exception", 0) + raised
     if rows:
         m = rows[len(rows) // 2]
-        ctx.sample({"code_to_spec(end_to_end)": m["src"], "container": m["cx"], "tree": treeproj.show(m["forms"][0]["t"])[:300]})
+        ctx.sample({"code_to_spec(end_to_end)": m["src"], "container": m["cx"], "tree": treeproj.show(m["trees"][0])[:300]})
 
 
 def mc_tree_inputs(ctx, plan, listed_tc):
@@ -322,7 +346,11 @@ def _spec_tree_row(job):
     d, cx, tree = job
     want = tree["c"] if cx is None else tree
     bad = []
-    for f in forms(d, cx):
+    try:
+        fs = treestore.with_timeout(lambda: forms(d, cx), 60)
+    except treestore.Timeout:
+        return [("all", None, "timeout")]
+    for f in fs:
         t = f["t"]
         if f["b"] == "etree-root" and cx is None:
             hs = [x for x in want if x["k"] == "elem" and dec(x["n"]) == "html"]
@@ -335,7 +363,7 @@ def _spec_tree_row(job):
 
 # ---------------------------------------------------------------------------------------------------------------
 def run(ctx):
-    listed = [COLLISION] if COLLISION in ctx.open_keys else []
+    listed = [x for x in DEFECTS if x in ctx.open_keys]
     q = ctx.quick
     P = {"parser/structure": (5, 8) if q else (6, 8), "parser/attrs": (4, 7) if q else (5, 8), "free": (4, 5) if q else (5, 5)}
     ctx.constants = {"MC_TreeStore (MaxOps, MaxNodes)": P,
@@ -359,7 +387,7 @@ def run(ctx):
     if r.violated:
         ctx.violation("theorem %s fails on the intended node-store specification (attrs)" % r.violated, {"kind": "theorem", "tlc": r.stdout_path})
     run_mc(ctx, "mc-parser-attrs-faithful", "parser", "attrs", mo, mn, False, listed, REP_THMS)
-    if listed:
+    if COLLISION in listed:
         r2 = ctx.tlc("MC_TreeStore", cfg("parser", "attrs", 3, 6, True, False, listed, ALL_THMS), "mc-finding-witness", expect_ok=False)
         ctx.notes["finding_witness_at_model_level(dom-colon-attr-collision)"] = r2.violated
         if r2.violated not in ("ThmRows", "ThmRefinement"):
@@ -419,7 +447,7 @@ def replay(case):
         print("difference:", json.dumps(diff)[:3000] if diff else None)
         return 1 if diff else 0
     ctx = core.Ctx("C04", "quick", 0)
-    listed = [COLLISION] if COLLISION in ctx.open_keys else []
+    listed = [x for x in DEFECTS if x in ctx.open_keys]
     if kind == "prim":
         tr = treestore.record_parse(c["src"], c["cx"], c["builder"], c.get("ns", True))
         rej = core.validate_traces(ctx, "Trace_TreeStore", [{"b": tr["b"], "frag": tr["frag"], "ev": tr["ev"], "tree": tr["tree"]}], "replay",
@@ -431,11 +459,12 @@ def replay(case):
     if kind in ("e2e", "spec-tree"):
         row = _forms_row((c["src"], c["cx"]))
         for f in row["forms"]:
-            print("--- %s ns=%s\n%s" % (f["b"], f["ns"], treeproj.show(f["t"])))
+            print("--- %s ns=%s\n%s" % (f["b"], f["ns"], treeproj.show(row["trees"][f["ti"] - 1])))
         if kind == "spec-tree":
             bad = _spec_tree_row((c["src"], c["cx"], c["expected"]))
             return 1 if bad else 0
-        rej = core.validate_traces(ctx, "Trace_Builders", [{"frag": row["frag"], "forms": row["forms"]}], "replay", consts=kd(listed))
+        rej = core.validate_traces(ctx, "Trace_Builders", [{"frag": row["frag"], "trees": row["trees"], "forms": row["forms"]}], "replay",
+                                   consts=kd(listed))
         rej = [r for r in rej if not r[1]["v"].startswith(("finding:", "accept"))]
         print("verdict:", rej[0][1] if rej else "accepted")
         return 1 if rej else 0
